@@ -698,6 +698,8 @@ def analytic_case(draw):
         elif w != "none":
             i1 = draw(st.integers(0, len(BOUND_ORDER) - 1))
             i2 = draw(st.integers(i1, len(BOUND_ORDER) - 1))
+            if draw(st.integers(0, 5)) == 0:
+                i1, i2 = 0, len(BOUND_ORDER) - 1   # whole partition WITH an ordering (first_value / last_value still depend on it)
             s_, e_ = BOUND_ORDER[i1], BOUND_ORDER[i2]
             if s_ == "uf": s_ = "cur"
             if e_ == "up": e_ = "cur"
@@ -712,7 +714,15 @@ def analytic_case(draw):
     target = "an_1" if calc else None
     if op == "rank":
         measure = None
-    return ci, ("analytic", op, ("ds", "DS_1"), measure, partition, orderby, window, params, target)
+    ir = ("analytic", op, ("ds", "DS_1"), measure, partition, orderby, window, params, target)
+    # two analytic calls in one script: the second mirrors the directions of the first frame (same offsets)
+    if calc and window is not None and op not in ("rank", "lag", "lead", "ratio_to_report", "count") and draw(st.booleans()):
+        def mirror(b):
+            return ("f", b[1]) if isinstance(b, tuple) and b[0] == "p" else ("p", b[1]) if isinstance(b, tuple) else {"up": "uf", "uf": "up", "cur": "cur"}[b]
+        s2, e2 = mirror(window[2]), mirror(window[1])
+        op2 = draw(st.sampled_from(["sum", "min", "max", "first_value", "last_value", "avg"]))
+        ir = ("analytic", op2, ir, measure, partition, orderby, (window[0], s2, e2), [], "an_2")
+    return ci, ir
 
 
 @st.composite
